@@ -1111,3 +1111,44 @@ example : spread (⟨[8, 11, 11], [[8], [5, 6], [4, 7]]⟩ : Bins Nat).sums
     (fuel₁ := 100) (fuel₂ := 100) (by decide) rfl rfl
 
 end Prtpy.SumsOnly
+
+/-
+Exhaustive test that preceded the proofs of §4 (`#eval`, all multisets of at most 7 values in 1..9, fuel 100000):
+`snp … true` and `snp … false` return the same `sums` for k ∈ {2, 3, 4}; `rnpF … true` and `rnpF … false` for
+k ∈ {2, 3, 4, 5}; `ckk … true` and `ckk … false` for k ∈ {2, 3, 4} (at most 6 values): no counterexample.  For SNP
+and RNP this is now `snp_sums_manager_independent` / `rnpF_sums_manager_independent`; for `ckk` with three or more
+bins only the value is proved equal (`ckk_value_manager_independent`), the equality of the vectors is observed.
+
+Axiom audit (output of `#print axioms` observed with `lake env lean`):
+
+#print axioms Prtpy.SumsOnly.snp_sums_optimal
+  'Prtpy.SumsOnly.snp_sums_optimal' depends on axioms: [propext, Classical.choice, Quot.sound]
+#print axioms Prtpy.SumsOnly.snp_optimal_any
+  'Prtpy.SumsOnly.snp_optimal_any' depends on axioms: [propext, Classical.choice, Quot.sound]
+#print axioms Prtpy.SumsOnly.rnpF_sums_optimal
+  'Prtpy.SumsOnly.rnpF_sums_optimal' depends on axioms: [propext, Classical.choice, Quot.sound]
+#print axioms Prtpy.SumsOnly.rnpF_optimal_any
+  'Prtpy.SumsOnly.rnpF_optimal_any' depends on axioms: [propext, Classical.choice, Quot.sound]
+#print axioms Prtpy.SumsOnly.snp_sums_manager_independent
+  'Prtpy.SumsOnly.snp_sums_manager_independent' depends on axioms: [propext, Classical.choice, Quot.sound]
+#print axioms Prtpy.SumsOnly.rnpF_sums_manager_independent
+  'Prtpy.SumsOnly.rnpF_sums_manager_independent' depends on axioms: [propext, Classical.choice, Quot.sound]
+#print axioms Prtpy.SumsOnly.ckk_two_sums_manager_independent
+  'Prtpy.SumsOnly.ckk_two_sums_manager_independent' depends on axioms: [propext, Classical.choice, Quot.sound]
+#print axioms Prtpy.SumsOnly.snp_value_manager_independent
+  'Prtpy.SumsOnly.snp_value_manager_independent' depends on axioms: [propext, Classical.choice, Quot.sound]
+#print axioms Prtpy.SumsOnly.snp_value_any
+  'Prtpy.SumsOnly.snp_value_any' depends on axioms: [propext, Classical.choice, Quot.sound]
+#print axioms Prtpy.SumsOnly.rnpF_value_manager_independent
+  'Prtpy.SumsOnly.rnpF_value_manager_independent' depends on axioms: [propext, Classical.choice, Quot.sound]
+#print axioms Prtpy.SumsOnly.rnpF_value_any
+  'Prtpy.SumsOnly.rnpF_value_any' depends on axioms: [propext, Classical.choice, Quot.sound]
+#print axioms Prtpy.SumsOnly.ckk_value_manager_independent
+  'Prtpy.SumsOnly.ckk_value_manager_independent' depends on axioms: [propext, Classical.choice, Quot.sound]
+#print axioms Prtpy.SumsOnly.ckk2_twoOK
+  'Prtpy.SumsOnly.ckk2_twoOK' depends on axioms: [propext, Classical.choice, Quot.sound]
+#print axioms Prtpy.SumsOnly.snpRec_sim
+  'Prtpy.SumsOnly.snpRec_sim' depends on axioms: [propext, Classical.choice, Quot.sound]
+#print axioms Prtpy.SumsOnly.rnpRecF_sim
+  'Prtpy.SumsOnly.rnpRecF_sim' depends on axioms: [propext, Classical.choice, Quot.sound]
+-/
